@@ -60,5 +60,8 @@ func timeIntrinsic(name string, fn *ssa.Function) intrinsicFn {
 		}
 	}
 	_ = token.ADD
+	if h := urlIntrinsic(name, fn); h != nil {
+		return h
+	}
 	return stringsIntrinsic(name, fn)
 }
